@@ -92,6 +92,7 @@ Fixpoint exec_p (fuel : nat) (esc : bool) (s : st) (t : stmt) {struct fuel} : pr
         pbind (lift s1 (match iv with
               | VList l => Ok l
               | VStr _ t => Ok (map (fun ch => VStr false [ch]) t)     (* a string iterates over its characters *)
+              | VMap kvs => Ok (map fst kvs)                           (* a map iterates over its keys, in map order *)
               | VUndef => if u_strictish m then Err E_UndefinedError else Ok []
               | VSilent => Ok []
               | _ => Err E_InvalidOperation end)) (fun items =>
@@ -106,7 +107,10 @@ Fixpoint exec_p (fuel : nat) (esc : bool) (s : st) (t : stmt) {struct fuel} : pr
         | [], Some eb => exec_list_p fuel esc s6 eb
         | _, _ => POk (SigNormal, s6)
         end))))
-    | SSet x e => pbind (lift s (eval c fuel esc s e)) (fun '(v, s1) => POk (SigNormal, store s1 x v))
+    | SSet tgt e =>
+        (* the right-hand side is evaluated completely before any target is bound; binding does not write *)
+        pbind (lift s (eval c fuel esc s e)) (fun '(v, s1) =>
+        pbind (lift s1 (bind_target tgt s1 v)) (fun s2 => POk (SigNormal, s2)))
     | SSetBlock x body flt =>
         pbind (capture esc s body) (fun '(sg, txt, s1) =>
         match sg with
